@@ -280,3 +280,60 @@ def lattice_kwargs(cfg, spell=None):
   kw["output_min"] = cfg.get("omin")
   kw["output_max"] = cfg.get("omax")
   return kw
+
+
+# --------------------------------------------------------------------------
+# PWL calibration configurations (valid by construction).
+SPACINGS = [1e-2, 0.5, 1.0, 1.0, 3.0, 100.0]
+
+
+@st.composite
+def pwl_keypoints(draw, min_k=2, max_k=8):
+  k = draw(st.integers(min_k, max_k))
+  start = draw(st.sampled_from([-100.0, -1.0, 0.0, 0.5, 10.0]))
+  if draw(st.booleans()):
+    gap = draw(st.sampled_from(SPACINGS))
+    gaps = [gap] * (k - 1)
+  else:
+    gaps = [draw(st.sampled_from(SPACINGS)) for _ in range(k - 1)]
+  kp = [start]
+  for g in gaps:
+    kp.append(kp[-1] + g)
+  kp = f32(kp)
+  # float32 rounding must keep them strictly increasing.
+  for i in range(1, len(kp)):
+    if kp[i] <= kp[i - 1]:
+      kp[i] = float(np.nextafter(np.float32(kp[i - 1]), np.float32(np.inf)))
+  return kp
+
+
+@st.composite
+def pwl_config(draw, max_k=8, max_units=3, allow_cyclic=True,
+               iters=(0, 1, 2, 8, 30)):
+  """Valid PWLCalibration constraint configuration."""
+  kp = draw(pwl_keypoints(max_k=max_k))
+  mono = draw(st.sampled_from([-1, 0, 1, 1]))
+  conv = draw(st.sampled_from([0, 0, -1, 1]))
+  cyclic = False
+  if allow_cyclic and len(kp) >= 3 and draw(st.integers(0, 5)) == 0:
+    cyclic, mono, conv = True, 0, 0
+  bm = draw(st.sampled_from(["none", "min", "max", "both", "both"]))
+  lo = f32(draw(st.sampled_from([-10.0, -1.0, 0.0, 0.5, 100.0])))
+  width = f32(draw(st.sampled_from([0.0, 0.5, 1.0, 3.0, 1000.0])))
+  omin = lo if bm in ("min", "both") else None
+  omax = f32(lo + width) if bm in ("max", "both") else None
+  clamp_min = bool(mono != 0 and omin is not None and draw(st.booleans()))
+  clamp_max = bool(mono != 0 and omax is not None and draw(st.booleans()))
+  return {"keypoints": kp, "units": draw(st.integers(1, max_units)),
+          "mono": mono, "conv": conv, "cyclic": cyclic, "omin": omin,
+          "omax": omax, "clamp_min": clamp_min, "clamp_max": clamp_max,
+          "iters": draw(st.sampled_from(list(iters)))}
+
+
+def pwl_layer_kwargs(cfg):
+  return dict(input_keypoints=list(cfg["keypoints"]), units=cfg["units"],
+              output_min=cfg["omin"], output_max=cfg["omax"],
+              clamp_min=cfg["clamp_min"], clamp_max=cfg["clamp_max"],
+              monotonicity=cfg["mono"], convexity=cfg["conv"],
+              is_cyclic=cfg["cyclic"],
+              num_projection_iterations=cfg["iters"])
